@@ -130,9 +130,13 @@ def le_rule(ctx: Ctx) -> None:
 
             def on_w(c: ast.Call, ev, _s0=s0, _w=w, _writes=writes):
                 fn = ast.unparse(c.func)
-                if fn == f"{_s0}._write_value" and len(c.args) == 2 and not c.keywords:
-                    _writes.append((ev.ev(c.args[0]), ev.ev(c.args[1]), c))
-                    return Form.k(0)
+                if fn == f"{_s0}._write_value":
+                    wv = m.method(mem, "_write_value")
+                    a = {p_: v for p_, v in zip(wv.params[1:], c.args)}
+                    a.update({k.arg: k.value for k in c.keywords if k.arg})
+                    if set(a) == set(wv.params[1:3]):
+                        _writes.append((ev.ev(a[wv.params[1]]), ev.ev(a[wv.params[2]]), c))
+                        return Form.k(0)
                 if fn == f"{_s0}.class_of_memory_file_values" and len(c.args) == 1:
                     return ev.ev(c.args[0]).and_mask((1 << _w) - 1)  # the cell class keeps w bits
                 return None
@@ -155,8 +159,8 @@ def le_rule(ctx: Ctx) -> None:
 
             def on_r(c: ast.Call, ev, _s0=s0, _w=w, _reads=reads):
                 fn = ast.unparse(c.func)
-                if fn == f"{_s0}._read_value" and len(c.args) == 1 and not c.keywords:
-                    a = ev.ev(c.args[0]) - Form.var("a")
+                if fn == f"{_s0}._read_value" and len(c.args) + len(c.keywords) == 1:
+                    a = ev.ev((list(c.args) + [k.value for k in c.keywords])[0]) - Form.var("a")
                     if not a.is_const():
                         raise Inconclusive("cell address is not address + constant")
                     _reads.append((a.const, c))
@@ -227,17 +231,20 @@ def cfg_rule(ctx: Ctx) -> None:
         ok = a == ["AddressingType.BYTE", 32, True, range(2 ** 14, 2 ** 32)]
         r.check(ok, f"riscv-memory-{i}", st.loc(), f"RISC-V data memory is configured as {a}; documented: byte cells, 32-bit addresses, "
                 "wrap-around on, valid range [2^14, 2^32)")
-    ts = m.method("ToyArchitecturalState", "__init__", own=True)
-    calls = [c for c in calls_in(ts.node) if m.resolve_class(ts.module, c.func) is mem]
+    from ..parsershape import normal_flow
+    ts = m.method("ToyArchitecturalState", "__init__")
+    tfl = normal_flow(m, ts)
+    tmem = [e.expr.value for e in tfl.effects if e.kind == "store" and tfl.canon(e.expr.targets[0]) == "P0.memory"]  # type: ignore[attr-defined]
     ok = False
-    if len(calls) == 1:
-        c = calls[0]
-        kw = {k.arg: k.value for k in c.keywords}
+    if len(tmem) == 1 and isinstance(tmem[0], ast.Call) and m.resolve_class(ts.module, tmem[0].func) is mem:
+        ca = call_args(m, tmem[0], "Memory") or {}
+        rng = ca.get("address_range")
         try:
-            rng = kw.get("address_range")
             dflt = fold_in(m, ts.module, rng.orelse) if isinstance(rng, ast.IfExp) else None
-            ok = ast.unparse(c.args[0]) == "AddressingType.HALF_WORD" and const_int(c.args[1]) == 12 and "address_overflow" not in kw \
-                and len(c.args) == 2 and dflt == range(4096) and isinstance(rng, ast.IfExp) and ast.unparse(rng.body) == "range(unified_memory_size)"
+            ok = ast.unparse(ca.get("addressing_type", ast.Constant(value=None))) == "AddressingType.HALF_WORD" \
+                and const_int(ca.get("address_length", ast.Constant(value=None))) == 12 \
+                and ("address_overflow" not in ca or (isinstance(ca["address_overflow"], ast.Constant) and ca["address_overflow"].value is False)) \
+                and dflt == range(4096) and isinstance(rng, ast.IfExp) and tfl.canon(rng.body) == "range(P1)" and tfl.canon(rng.test) in ("P1", "B:P1")
         except Unknown:
             ok = False
     r.check(ok, "toy-memory", ts.loc(), "TOY memory is not Memory(HALF_WORD, 12, no overflow, range(4096) by default)")
